@@ -13,6 +13,7 @@ import (
 	"pgregory.net/rapid"
 	"verif/harness/internal/cfggen"
 	"verif/harness/internal/ev"
+	"verif/harness/internal/gogen"
 	"verif/harness/internal/irbuild"
 )
 
@@ -329,8 +330,14 @@ func TestDominance(t *testing.T) {
 	ev.Assume("blocks unreachable from both the entry and the recover block are outside the statement (counted as has_unreachable_block)")
 	cfg := cfggen.Default()
 	ev.Check(t, "TestDominance", func(rt *rapid.T) {
-		p := cfggen.Generate(rt, cfg)
-		c := &Case{Src: p.Src, Naive: rapid.IntRange(0, 2).Draw(rt, "naive") == 0}
+		var src string
+		if rapid.IntRange(0, 3).Draw(rt, "generator") == 0 {
+			src = gogen.Generate(rt, gogen.DefaultConfig()).Src // structured code of the rich generator (range-over-func, defers, type switches)
+			ev.Count("generated_by_gogen", 1)
+		} else {
+			src = cfggen.Generate(rt, cfg).Src
+		}
+		c := &Case{Src: src, Naive: rapid.IntRange(0, 2).Draw(rt, "naive") == 0}
 		b, _ := json.Marshal(c)
 		ev.Begin("TestDominance", "json", b)
 		if msg := evaluate(c, true); msg != "" {
